@@ -207,9 +207,44 @@ def run_h5_laws(sv, docs, res):
                              {'kind': 'raise', 'direction': type(e).__name__, 'map': mname, 'features': 'html-pseudo-class-next-to-caller-prefix', 'doc': 'h5'}, repr(e))
 
 
+CUSTOM = {':--k': '[k]', ':--c': '.c, [k=vp]', ':--t': 'e > *', ':--n': ':not(.c)'}
+
+
+def run_custom_laws(sv, tier, res):
+    """A custom alias means what its definition means inside :is(): under every caller map (default namespace included) and behind every typed or
+    untyped compound, `T:--x` = `T:is(definition)` and `T:not(:--x)` = `T:not(definition)`.  (The implied universal of a top-level selector does not
+    apply inside an alias.)"""
+    docs = built('quick')
+    if tier == 'quick':
+        docs = docs[::7]
+    for name, src, soup in docs:
+        els = T.elements(soup)
+        pos = {id(e): k for k, e in enumerate(els)}
+        for mname, m in MAPS.items():
+            def sel(text):
+                try:
+                    return [pos[id(e)] for e in sv.select(text, soup, namespaces=m, custom=CUSTOM)]
+                except Exception as e:
+                    return 'raise:' + type(e).__name__
+            for t in ('', '*|*', '*|e', 'e', 'x|e', '|e', 'x|*', 'f'):
+                for alias, body in CUSTOM.items():
+                    for form in ('{t}{a}', '{t}:not({a})', '{t}:is({a}, zz)', 'r > {t}{a}'):
+                        lhs, rhs = form.format(t=t, a=alias), form.format(t=t, a=':is(' + body + ')' if form == '{t}{a}' or form.endswith('{a}') else body)
+                        got, want = sel(lhs), sel(rhs)
+                        res.evaluations += 1
+                        if want and want != 'raise:SelectorSyntaxError':
+                            res.nontrivial += 1
+                        if got != want:
+                            res.fail({'src': src, 'map': mname, 'h5': False, 'custom_law': True, 'text': lhs, 'rhs': rhs, 'selector': ()},
+                                     {'kind': 'law', 'direction': 'alias-differs-from-definition', 'map': mname, 'features': 'custom-alias' + ('+typed' if t else ''), 'doc': src[0]},
+                                     f'[{name}, map {mname}] select({lhs!r}, custom=...) gives {got}; with the definition written out, {rhs!r}, it is {want}')
+                        else:
+                            res.outcome('law-holds')
+
+
 def shards(tier, seed):
     n = 32 if tier == 'quick' else 96
-    return [('xml', tier, i, n) for i in range(n)] + [('h5', tier, 0, 1)]
+    return [('xml', tier, i, n) for i in range(n)] + [('h5', tier, 0, 1), ('custom', tier, 0, 1)]
 
 
 _DOCS = {}
@@ -240,6 +275,9 @@ def run_shard(desc):
     warnings.simplefilter('ignore')
     res = shard.Result()
     what, tier, i, n = desc
+    if what == 'custom':
+        run_custom_laws(sv, tier, res)
+        return res
     if what == 'h5':
         import bs4
         docs = [('html5lib', bs4.BeautifulSoup(H5, 'html5lib')),
@@ -299,6 +337,16 @@ def replay(case):
         soup = bs4.BeautifulSoup(H5, 'html5lib')
     else:
         soup = bs4.BeautifulSoup('<html xmlns="%s"><body>%s</body></html>' % (XHTML, H5.replace('<svg ', '<svg xmlns="%s" xmlns:xlink="%s" ' % (SVG, XLINK)).replace('<math ', '<math xmlns="%s" ' % MATHML)), 'xml')
+    if case.get('custom_law'):
+        m = MAPS[case['map']]
+        pos = {id(e): k for k, e in enumerate(T.elements(soup))}
+        out = []
+        for text in (case['text'], case['rhs']):
+            try:
+                out.append([pos[id(e)] for e in sv.select(text, soup, namespaces=m, custom=CUSTOM)])
+            except Exception as e:
+                out.append('raise:' + type(e).__name__)
+        return None if out[0] == out[1] else ({'kind': 'law', 'direction': 'alias-differs-from-definition'}, f'{out[0]} vs {out[1]}')
     if case.get('law'):
         r = shard.Result()
         run_h5_laws(sv, [(payload, case['src'], soup)], r)
